@@ -108,6 +108,20 @@ class DistributedSend(Taggable):
     comm_tag: CommTagType
     tags: frozenset[Tag] = dataclasses.field(kw_only=True, default=frozenset())
 
+    def __eq__(self, other: object) -> bool:
+        # Taggable.__eq__ would compare the tags only
+        return (
+            self is other
+            or (type(self) is type(other)
+                and isinstance(other, DistributedSend)
+                and self.dest_rank == other.dest_rank
+                and self.comm_tag == other.comm_tag
+                and self.tags == other.tags
+                and self.data == other.data))
+
+    def __ne__(self, other: object) -> bool:
+        return not self.__eq__(other)
+
     def _with_new_tags(self, tags: frozenset[Tag]) -> DistributedSend:
         return dataclasses.replace(self, tags=tags)
 
